@@ -515,10 +515,20 @@ class Exec:
         """force a symbolic scalar to a concrete value on this path (forks are not created: the value
         is fixed to the solver's choice and added to the path condition).  Used only where stated."""
         if not is_sym(v): return v
+        # the chosen value is part of the decision trace: a re-execution of the same prefix must see the same value (the
+        # solver is free to return another model), otherwise later choices would be read against the wrong program points
+        if s.pos < len(s.trace) and isinstance(s.trace[s.pos], tuple) and z3.is_bv(v):
+            cv = s.trace[s.pos][1]; s.pos += 1
+            c = z3.BitVecVal(cv, v.size())
+            s.solver.add(v == c); s.pc.append(v == c)
+            return cv
         m = s.model()
         c = m.eval(v, model_completion=True)
         s.solver.add(v == c); s.pc.append(v == c)
-        return conc_value(c)
+        cv = conc_value(c)
+        if z3.is_bv(v) and s.pos >= len(s.trace):
+            s.trace.append(('c', cv)); s.pos += 1
+        return cv
 
     # ---------------- exploration
     def explore(s, fn, post=None, prefix=None, max_paths=None, deadline=None):
